@@ -17,6 +17,8 @@ pub enum Profile {
     Auth,
     /// Resubmission of appointments in every lifecycle state (C11).
     Resubmit,
+    /// One or two trackers driven exactly to (and past) 100 confirmations, with a few requests around the completing block.
+    Completion,
 }
 
 pub struct Gen {
@@ -46,6 +48,7 @@ impl Gen {
         let (duration, grace) = match profile {
             Profile::Expiry => (*rng.pick(&[0u32, 1, 2, 3, 5, 10]), *rng.pick(&[0u32, 1, 2, 6])),
             Profile::Chain => (*rng.pick(&[50u32, 300, 4320]), *rng.pick(&[1u32, 6])),
+            Profile::Completion => (4320, 6),
             _ => (*rng.pick(&[3u32, 10, 50, 4320, 4320]), *rng.pick(&[0u32, 1, 2, 6])),
         };
         let cfg = TowerCfg {
@@ -466,6 +469,69 @@ pub fn generate(property: &str, seed: u64, profile: Profile) -> History {
                     4 => g.op_register(),
                     _ => g.op_misc(),
                 }
+            }
+        }
+        Profile::Completion => {
+            let u = 0u32;
+            g.registered[0] = true;
+            g.ops.clear();
+            g.ops.push(Op::Register { u });
+            if g.cfg.slots < 3 {
+                g.ops.push(Op::Register { u });
+                g.ops.push(Op::Register { u });
+            }
+            let d = 0u32;
+            let len = *g.rng.pick(&[0usize, 0, 2049]);
+            g.used_penalties[0].push((0, len));
+            g.ops.push(Op::Add { u, d, blob: Blob::Valid { v: 0, len }, tsd: 42, sig: Sig::Good });
+            let second = g.n_users > 1 && g.rng.chance(1, 3);
+            if second {
+                g.registered[1] = true;
+                g.ops.push(Op::Register { u: 1 });
+                g.ops.push(Op::Add { u: 1, d, blob: Blob::Valid { v: 0, len }, tsd: 42, sig: Sig::Good });
+            }
+            g.push_mine(vec![TxRef::Dispute(d)]);
+            g.ops.push(Op::Poll);
+            let gap = g.rng.below(3);
+            for _ in 0..gap {
+                g.push_mine(vec![]);
+            }
+            g.push_mine(vec![TxRef::Penalty { d, v: 0, len }]);
+            g.ops.push(Op::Poll);
+            if g.rng.chance(1, 4) {
+                // a shallow reorg above the confirming block on the way
+                g.push_mine(vec![]);
+                g.push_mine(vec![]);
+                g.ops.push(Op::Poll);
+                g.op_reorg(2);
+            }
+            // grow until the penalty has 99 confirmations, in a few polls
+            let mut remaining = 99u32.saturating_sub(2);
+            let polls = g.rng.range(1, 4) as u32;
+            let chunk = (remaining / polls).max(1);
+            while remaining > 0 {
+                let n = chunk.min(remaining);
+                for _ in 0..n {
+                    g.push_mine(vec![]);
+                }
+                g.ops.push(Op::Poll);
+                remaining -= n;
+            }
+            // the blocks around +100, one poll each or together
+            let together = g.rng.chance(1, 3);
+            for _ in 0..g.rng.range(3, 6) {
+                g.push_mine(vec![]);
+                if !together {
+                    g.ops.push(Op::Poll);
+                }
+                if g.rng.chance(1, 4) {
+                    g.ops.push(Op::Get { u, d, sig: Sig::Good });
+                }
+            }
+            g.ops.push(Op::Poll);
+            g.ops.push(Op::SubInfo { u, sig: Sig::Good });
+            if g.rng.chance(1, 2) {
+                g.op_add(Some(1));
             }
         }
         Profile::Expiry => {
